@@ -180,7 +180,7 @@ def t_ledger(ptype, case):
     return t
 
 
-def t_dispatch(ptype):
+def t_dispatch(ptype, only_listing=False):
     """one strategy hook per elementary position effect (call-trace ghost over the _mutating_* helpers)"""
     def t(h):
         w, pos, trade, ct = cycle_world(h, ptype, True)
@@ -202,7 +202,14 @@ def t_dispatch(ptype):
             return
         effects = [t_[0].split('.')[-1] for t_ in h.ctx.trace if isinstance(t_[0], str) and '_mutating_' in t_[0]]
         ok = len(w.hook_calls) == len(effects) or (len(effects) == 0 and len(w.hook_calls) == 1)
-        h.prove(ops.lor(excl, ok), 'dispatch.one-hook-per-elementary-effect', {'effects': effects, 'hooks': len(w.hook_calls)})
+        if not only_listing:
+            h.prove(ops.lor(excl, ok), 'dispatch.one-hook-per-elementary-effect', {'effects': effects, 'hooks': len(w.hook_calls)})
+        # the order is recorded in its trade by Order.execute (C05: exactly once); the position bookkeeping never lists it itself
+        listed = 0
+        for tr in list(ct.f['trades']) + list(ct.f['tempt_trades'].values()):
+            if isinstance(tr, Obj):
+                listed += sum(1 for x in tr.f.get('orders', []) if x is o)
+        h.prove(listed == 0, 'dispatch.the-position-never-lists-the-order-in-a-trade-itself', {'listed': listed})
     return t
 
 
@@ -320,4 +327,8 @@ def tasks(tier):
     import props.C02 as P2
     ts.append(Task('float-boundary', t_float_boundary, extra=dict(x, bounded='98 decimal histories on the grid 0.05..2.2 (native, binary floats)')))
     ts.append(Task('fill-clock.chunk', P1.t_chunk_clock, extra=dict(x, spec_mod=P2.SPEC), overrides=dict(ov)))
+    # the rows of the trade log are written by ClosedTrades.add_executed_order: the order's own quantity and price, for every order
+    # type (shared with C05)
+    import props.C05 as P5
+    ts += [t for t in P5.tasks(tier) if t.id.startswith('trade-record.')]
     return ts
